@@ -99,6 +99,9 @@ KEY_DOMAINS = {
 KEY_DTYPES = ['int64', '<U1', 'M8[D]', 'bool', 'float64', '<U5', 'int64', '<U1', 'int8']
 
 
+TECHNIQUE = 'runtime monitoring: relational reference models (nested-loop join, dict-based pivot / stack / unstack, index<->column moves; sfmon/model/c20_ref.py) compared with the library result cell by cell'
+
+
 def _f_range(a):
     return a.max() - a.min()
 
